@@ -446,18 +446,23 @@ htp_status_t htp_connp_RES_BODY_CHUNKED_LENGTH(htp_connp_t *connp) {
                 // reset out_current_read_offset so htp_connp_RES_BODY_IDENTITY_STREAM_CLOSE
                 // doesn't miss the first bytes
 
-                if (len > (size_t)connp->out_current_read_offset) {
-                    connp->out_current_read_offset = 0;
-                } else {
-                    connp->out_current_read_offset -= len;
-                }
-
                 connp->out_state = htp_connp_RES_BODY_IDENTITY_STREAM_CLOSE;
                 connp->out_tx->response_transfer_coding = HTP_CODING_IDENTITY;
 
                 htp_log(connp, HTP_LOG_MARK, HTP_LOG_ERROR, 0,
                         "Response chunk encoding: Invalid chunk length: %"PRId64"",
                         connp->out_chunked_length);
+
+                if (connp->out_buf != NULL) {
+                    // The line began in earlier data chunks, which cannot be read again:
+                    // hand it out as the first body data here and carry on after it.
+                    htp_status_t rc = htp_tx_res_process_body_data_ex(connp->out_tx, data, len);
+                    htp_connp_res_clear_buffer(connp);
+                    if (rc != HTP_OK) return rc;
+                } else {
+                    connp->out_current_read_offset -= len;
+                }
+
                 return HTP_OK;
             }
             htp_connp_res_clear_buffer(connp);
